@@ -18,6 +18,8 @@ def nontrivial(engine, opline):
     if engine == 'block':
         # non-trivial: a transaction line that was admitted (not a begin/end line, not refused at admission)
         return bool(t) and t[0] in ('eth', 'cos')
+    if engine == 'genesis':
+        return bool(t) and t[0] == 'gen'
     if engine == 'reexec':
         return bool(t) and t[0] == 'blk' and 'n=0' not in t
     if engine == 'cpc':
@@ -208,6 +210,17 @@ PROPS['C01'] = dict(
                  'the wall-clock part of the tie (second process started after a vesting end time has passed) runs in the thorough tier only; in the quick tier wall-clock independence rests on the census obligation',
                  'the models are pure functions: the theorems here are the order-independence arguments for each place the census finds a map'],
     technique='Lean 4 theorems (order-independence of every map use) + regenerated census obligations + twin execution / twin process re-execution of the real application',
+)
+
+PROPS['C18'] = dict(
+    lean_modules=['Model.Cpc', 'Model.Genesis', 'Properties.C18', 'Facts.Genesis'],
+    facts=['*'],
+    theorems=['C18_full_fails', 'C18_feemarket_roundtrip', 'C18_evm_roundtrip', 'C18_evm_roundtrip_exact', 'C18_roundtrip_partial', 'C18_export_idempotent', 'staking_flag_stable',
+              'fact_init_genesis_order'],
+    engines=[dict(name='genesis', test='TestEngineGenesis', quick=6, thorough=120, thorough_seeds=2)],
+    rule='per epoch a fresh chain is driven into a state with 1-4 contracts with random storage (zero-valued words, deleted slots), a storage-only address, a contract self-destructed through the EVM, optionally an ERC-20 precompile deployed after genesis, a staking precompile (optionally disabled), a whitelist, allowances (incl. unlimited), an ownership proof and a moved base fee; ExportAppStateAndValidators; a fresh Evermint InitChain-ed from the export; all observables of evm / feemarket / cpc / vauth compared, and each module exported again; non-trivial = every epoch line; distinct by op-line hash',
+    assumptions=['only the four custom modules are compared (SDK modules are trusted)', 'EVM and fee-market parameter sets are compared as opaque marshalled blobs',
+                 'the re-imported state is read from the InitChain (not yet committed) state of the fresh application'],
 )
 
 NOT_APPLICABLE = {}
